@@ -9,6 +9,7 @@
 use std::panic::{catch_unwind, AssertUnwindSafe};
 use std::str::FromStr;
 use std::sync::Arc;
+use miniscript::ScriptContext as _;
 
 use miniscript::bitcoin::secp256k1::XOnlyPublicKey;
 use miniscript::bitcoin::PublicKey;
@@ -251,6 +252,7 @@ fn rt_conc<K: PolKey>(out: &mut Out, p: &P) {
         if y.to_string() != s { return "fail:not-fixed-point".into(); }
         "pass".into()
     });
+    out.line(&format!("J alttext concrete-{} {} {}", K::NAME, hex(&s), hex(&guard(|| format!("{:#}", x)))), "ok");
     out.count(&format!("rtpol concrete-{} {}", K::NAME, tok));
     out.line(&format!("J rtpol concrete-{} {} {} {}", K::NAME, p.wire(), hex(&s), tok), "ok");
 }
@@ -264,15 +266,21 @@ fn rt_sem<K: PolKey>(out: &mut Out, p: &P) {
         if y.to_string() != s { return "fail:not-fixed-point".into(); }
         "pass".into()
     });
+    out.line(&format!("J alttext semantic-{} {} {}", K::NAME, hex(&s), hex(&guard(|| format!("{:#}", x)))), "ok");
     out.count(&format!("rtpol semantic-{} {}", K::NAME, tok));
     out.line(&format!("J rtpol semantic-{} {} {} {}", K::NAME, p.wire(), hex(&s), tok), "ok");
 }
 
-pub fn run_policies_real(out: &mut Out, thorough: bool, rng: &mut Rng, km: &KeyMaterial) {
+fn init_dpk(out: &mut Out, km: &KeyMaterial) {
+    if DPK.with(|t| !t.borrow().is_empty()) { return; }
     DPK.with(|t| {
         let v: Vec<DescriptorPublicKey> = (0..6usize).map(|i| super::key_or_fallback(out, &key_forms(km, i, false, false)[[0usize, 4, 7, 14, 15, 17][i]], false)).collect();
         *t.borrow_mut() = v;
     });
+}
+
+pub fn run_policies_real(out: &mut Out, thorough: bool, rng: &mut Rng, km: &KeyMaterial) {
+    init_dpk(out, km);
     let n = if thorough { 1500 } else { 150 };
     for i in 0..n {
         let c = p_conc(rng, 1 + i % 4);
@@ -890,6 +898,7 @@ fn rt_key_value<K: std::fmt::Debug + std::fmt::Display + PartialEq + FromStr>(ou
     });
     out.count(&format!("rt {} {}", kind, tok));
     out.line(&format!("J rt {}-{} {} {}", kind, label, hex(&s), tok), "ok");
+    out.line(&format!("J alttext {}-{} {} {}", kind, label, hex(&s), hex(&guard(|| format!("{:#}", k)))), "ok");
 }
 
 pub fn run_key_values(out: &mut Out, km: &KeyMaterial) {
@@ -1099,4 +1108,328 @@ pub fn run_definite(out: &mut Out, km: &KeyMaterial) -> Vec<String> {
         out.line(&format!("J nopanic desc-definite-fromstr {} {}", hex(&t), v), "ok");
     }
     valid
+}
+
+/* ============================================================ route-and-state round */
+
+/// the DESIGNATED corpus of a context: the hand corpus (every sugar shape, wrapper stacks, casts inside combinators,
+/// refused-today scripts) and the shared `ast::dimension_corpus` (incl. `ast::wrapper_towers`)
+pub fn designated(ctx: CtxK) -> Vec<Node> {
+    let mut v = super::sugar_nodes(ctx);
+    v.extend(ast::dimension_corpus(ctx));
+    let mut seen = std::collections::BTreeSet::new();
+    v.into_iter().filter(|n| super::constructible(ctx, n) && seen.insert(n.clone())).collect()
+}
+
+fn desc_rt_plain<Pk>(x: &Descriptor<Pk>) -> String
+where Pk: miniscript::FromStrKey + miniscript::ToPublicKey {
+    let s = x.to_string();
+    guard(|| {
+        let y = match Descriptor::<Pk>::from_str(&s) { Ok(y) => y, Err(e) => return format!("fail:parse-err:{}", err_class(&e.to_string())) };
+        if super::shape_desc(&y) != super::shape_desc(x) { return "fail:structure-differs".into(); }
+        if y != *x { return "fail:lib-eq".into(); }
+        if y.to_string() != s { return "fail:not-fixed-point".into(); }
+        let alt = format!("{:#}", x);
+        if !s.starts_with(&alt) || s.len() != alt.len() + 9 { return "fail:checksum-form".into(); }
+        match Descriptor::<Pk>::from_str(&alt) { Ok(z) => if z != *x { return "fail:nochecksum-differs".into(); }, Err(_) => return "fail:nochecksum-parse-err".into() }
+        if y.script_pubkey() != x.script_pubkey() { return "fail:script-differs".into(); }
+        "pass".into()
+    })
+}
+
+/// R4: the same object after `script_pubkey()`, `address()`, `spend_info()` (cache filled) prints and parses as before
+fn desc_used<Pk>(x: &Descriptor<Pk>, prev_used: Option<&Descriptor<Pk>>) -> String
+where Pk: miniscript::FromStrKey + miniscript::ToPublicKey {
+    guard(|| {
+        let fresh = x.to_string();
+        let fresh_dbg = format!("{:?}", x);
+        let fresh_obj = match Descriptor::<Pk>::from_str(&fresh) { Ok(y) => y, Err(_) => return "fail:parse-err".into() };
+        let _ = x.script_pubkey();
+        let _ = x.address(miniscript::bitcoin::Network::Bitcoin);
+        if let Descriptor::Tr(t) = x { let _ = t.spend_info(); let _ = t.spend_info(); }
+        let cl = x.clone();
+        if x.to_string() != fresh { return "fail:display-changed-after-use".into(); }
+        if format!("{:?}", x) != fresh_dbg { return "fail:debug-changed-after-use".into(); }
+        if format!("{:#}", x) != format!("{:#}", fresh_obj) { return "fail:alt-changed-after-use".into(); }
+        if cl.to_string() != fresh { return "fail:clone-display-differs".into(); }
+        let y = match Descriptor::<Pk>::from_str(&x.to_string()) { Ok(y) => y, Err(_) => return "fail:parse-err-after-use".into() };
+        if y != *x || *x != y { return "fail:used-vs-parsed-lib-eq".into(); }
+        if cl != *x { return "fail:used-vs-clone-lib-eq".into(); }
+        // both USED: y after use
+        let _ = y.script_pubkey(); if let Descriptor::Tr(t) = &y { let _ = t.spend_info(); }
+        if y != *x { return "fail:both-used-lib-eq".into(); }
+        if y.to_string() != fresh { return "fail:parsed-used-display".into(); }
+        if let Some(p) = prev_used {
+            // a DIFFERENT used object: equal exactly when the texts are equal
+            if (p == x) != (p.to_string() == fresh) { return "fail:different-used-objects-compare-equal".into(); }
+        }
+        "pass".into()
+    })
+}
+
+macro_rules! route_desc {
+    ($out:expr, $km:expr, $tr:expr, $d:expr, $w:expr, $text:expr, $prev:expr, $i:expr) => {{
+        let d = $d;
+        let tok = desc_rt_plain(&d);
+        $out.count(&format!("rt desc-ctor-{} {}", $w, tok));
+        $out.line(&format!("J rt desc-ctor-{} {} {}", $w, hex(&d.to_string()), tok), "ok");
+        let tok = desc_used(&d, $prev.as_ref());
+        $out.count(&format!("rt desc-used-{} {}", $w, tok));
+        $out.line(&format!("J rt desc-used-{} {} {}", $w, hex(&d.to_string()), tok), "ok");
+        // translate_pk route: the same shape over descriptor keys of assorted forms
+        if let Ok(Ok(t)) = catch_unwind(AssertUnwindSafe(|| d.translate_pk($tr))) {
+            let s = t.to_string();
+            let tok = super::rt_desc_token($km, &t, &s);
+            $out.count(&format!("rt desc-translated-{} {}", $w, tok));
+            $out.line(&format!("J rt desc-translated-{} {} {}", $w, hex(&s), tok), "ok");
+            // derive / split routes
+            let singles = if t.is_multipath() { t.clone().into_single_descriptors().unwrap_or_default() } else { vec![] };
+            for sd in singles.iter() {
+                let ss = sd.to_string();
+                let tok = super::rt_desc_token($km, sd, &ss);
+                $out.count(&format!("rt desc-single {}", tok));
+                $out.line(&format!("J rt desc-single-{} {} {}", $w, hex(&ss), tok), "ok");
+            }
+            let base = singles.first().cloned().unwrap_or(t);
+            if let Ok(Ok(dd)) = catch_unwind(AssertUnwindSafe(|| base.derived_descriptor(&$km.secp, 3))) {
+                let tok = desc_rt_plain(&dd);
+                $out.count(&format!("rt desc-derived {}", tok));
+                $out.line(&format!("J rt desc-derived-{} {} {}", $w, hex(&dd.to_string()), tok), "ok");
+            }
+        }
+        $text.push(d.to_string());
+        *$prev = Some(d);
+        let _ = $i;
+    }};
+}
+
+fn inner_routes(out: &mut Out, s: &str, wrong_arms: bool) {
+    type D = PublicKey;
+    macro_rules! inner { ($arm:expr, $ty:ty, $x:expr) => {{
+        let x = $x;
+        let tok = guard(|| {
+            if x.to_string() != s { return "fail:inner-display-differs-from-descriptor-display".into(); }
+            match <$ty>::from_str(s) { Ok(y) => if y == *x && y.to_string() == s { "pass".into() } else { "fail:inner-parse-differs".into() }, Err(_) => "fail:inner-parse-err".into() }
+        });
+        out.count(&format!("rt inner-{} {}", $arm, tok));
+        out.line(&format!("J rt inner-{} {} {}", $arm, hex(s), tok), "ok");
+    }}; }
+    let d = match Descriptor::<D>::from_str(s) { Ok(d) => d, Err(_) => return };
+    match &d {
+        Descriptor::Bare(b) => inner!("bare", Bare<D>, b), Descriptor::Pkh(p) => inner!("pkh", Pkh<D>, p), Descriptor::Wpkh(p) => inner!("wpkh", Wpkh<D>, p),
+        Descriptor::Sh(x) => inner!("sh", Sh<D>, x), Descriptor::Wsh(x) => inner!("wsh", Wsh<D>, x), Descriptor::Tr(x) => inner!("tr", Tr<D>, x),
+    }
+    if wrong_arms {
+        let body = &s[..s.len().saturating_sub(9)];
+        for (p, v) in [("bare", verdict(|| Bare::<D>::from_str(body))), ("pkh", verdict(|| Pkh::<D>::from_str(body))), ("wpkh", verdict(|| Wpkh::<D>::from_str(body))),
+                       ("sh", verdict(|| Sh::<D>::from_str(body))), ("wsh", verdict(|| Wsh::<D>::from_str(body))), ("tr", verdict(|| Tr::<D>::from_str(body)))] {
+            let v = match v { "ok" => "accepted", "err" => "rejected", _ => "PANIC" };
+            // `Pkh::from_tree` / `Wpkh::from_tree` never look at the NAME of the root node (`verify_terminal_parent` takes it
+            // only as a description for error messages): any `name(KEY)` is read as pkh / wpkh.  Beyond C10's statement
+            // (a text offered to the parser of ANOTHER type): an observation, judged only while the library refuses it
+            let own = if body.starts_with("pkh(") { "pkh" } else if body.starts_with("wpkh(") { "wpkh" } else { "" };
+            if (p == "pkh" || p == "wpkh") && p != own && v == "accepted" {
+                out.count(&format!("observation: {}::from_str accepts a text with another root name ({}…)", if p == "pkh" { "Pkh" } else { "Wpkh" }, &body[..body.find('(').unwrap_or(0)]));
+                continue;
+            }
+            out.line(&format!("J wrongarm {} {} {}", p, hex(body), v), "ok");
+        }
+    }
+}
+
+fn catalan_tapw(n: usize, leaves: &[Node], next: &mut usize) -> Vec<TapW> {
+    fn shapes(n: usize) -> Vec<Vec<bool>> { // pre-order: true = inner node
+        if n == 1 { return vec![vec![false]]; }
+        let mut v = vec![];
+        for k in 1..n { for l in shapes(k) { for r in shapes(n - k) { let mut s = vec![true]; s.extend(l.iter()); s.extend(r.iter()); v.push(s); } } }
+        v
+    }
+    fn build(code: &[bool], i: &mut usize, leaves: &[Node], next: &mut usize) -> TapW {
+        let inner = code[*i]; *i += 1;
+        if inner { let l = build(code, i, leaves, next); let r = build(code, i, leaves, next); TapW::Node(Box::new(l), Box::new(r)) }
+        else { let n = leaves[*next % leaves.len()].clone(); *next += 1; TapW::Leaf(n) }
+    }
+    shapes(n).iter().map(|c| build(c, &mut 0, leaves, next)).collect()
+}
+
+pub fn run_routes(out: &mut Out, thorough: bool, rng: &mut Rng, km: &KeyMaterial) {
+    init_dpk(out, km);
+    let mut tr = super::ToDescKeys {
+        full: (0..10).map(|i| super::key_or_fallback(out, &key_forms(km, i, false, false)[[0usize, 4, 6, 8, 14, 15, 17, 2, 5, 20][i]], false)).collect(),
+        xonly: (0..10).map(|i| super::key_or_fallback(out, &key_forms(km, i, true, false)[[0usize, 4, 6, 8, 14, 15, 17, 2, 5, 20][i]], true)).collect(),
+    };
+    let mut texts: Vec<String> = vec![];
+    // --- the whole designated corpus through constructor / translate_pk / derive / split / used-state routes, every wrapper
+    let mut n_insane = 0;
+    for ctx in CtxK::ALL {
+        let corpus = designated(ctx);
+        out.note(&format!("c10b_designated_{}", ctx.name()), corpus.len().to_string());
+        let mut prev_pk: Option<Descriptor<PublicKey>> = None;
+        let mut prev_x: Option<Descriptor<XOnlyPublicKey>> = None;
+        for (i, n) in corpus.iter().enumerate() {
+            match ctx {
+                CtxK::Segwitv0 => if let Ok(ms) = ast::to_ms::<PublicKey, Segwitv0>(n) {
+                    if ms.validate(&Segwitv0::SANE).is_err() { n_insane += 1; }
+                    if let Ok(d) = Descriptor::new_wsh(ms.clone()) { route_desc!(out, km, &mut tr, d, "wsh", texts, &mut prev_pk, i); }
+                    if let Ok(d) = Descriptor::new_sh_wsh(ms) { route_desc!(out, km, &mut tr, d, "shwsh", texts, &mut prev_pk, i); }
+                },
+                CtxK::Legacy => if let Ok(ms) = ast::to_ms::<PublicKey, Legacy>(n) { if let Ok(d) = Descriptor::new_sh(ms) { route_desc!(out, km, &mut tr, d, "sh", texts, &mut prev_pk, i); } },
+                CtxK::Bare => if let Ok(ms) = ast::to_ms::<PublicKey, BareCtx>(n) {
+                    if matches!(n, Node::Check(x) if matches!(**x, Node::PkH(_))) { continue; }   // F15, judged once elsewhere
+                    if let Ok(d) = Descriptor::new_bare(ms) { route_desc!(out, km, &mut tr, d, "bare", texts, &mut prev_pk, i); } },
+                CtxK::Tap => if let Ok(ms) = ast::to_ms::<XOnlyPublicKey, Tap>(n) {
+                    // `Descriptor::from_str` holds tap leaves to Tap::SANE; the constructor to Tap::CONSENSUS: only sane leaves have a text that parses back
+                    if ms.validate(&Tap::SANE).is_err() { n_insane += 1; continue; }
+                    if let Ok(d) = Descriptor::new_tr(ast::xonly_key(209), Some(miniscript::descriptor::TapTree::leaf(ms))) { route_desc!(out, km, &mut tr, d, "tr", texts, &mut prev_x, i); } },
+            }
+        }
+    }
+    out.note("c10b_routes_insane_leaves_skipped", n_insane.to_string());
+    // single-key wrappers, both key kinds, all routes
+    {
+        let mut prev: Option<Descriptor<PublicKey>> = None;
+        for k in [0u32, 3, 101] {
+            let pk = ast::full_key(k);
+            let mut ds = vec![Descriptor::new_pk(pk)];
+            if let Ok(d) = Descriptor::new_pkh(pk) { ds.push(d); }
+            if let Ok(d) = Descriptor::new_wpkh(pk) { ds.push(d); }
+            if let Ok(d) = Descriptor::new_sh_wpkh(pk) { ds.push(d); }
+            for d in ds { route_desc!(out, km, &mut tr, d, "key", texts, &mut prev, 0); }
+        }
+        let mut prevx: Option<Descriptor<XOnlyPublicKey>> = None;
+        if let Ok(d) = Descriptor::new_tr(ast::xonly_key(203), None) { route_desc!(out, km, &mut tr, d, "tr-keyonly", texts, &mut prevx, 0); }
+    }
+    // --- the per-wrapper types: Display / FromStr of Bare, Pkh, Wpkh, Sh, Wsh, Tr; wrong-arm texts must be refused
+    for (i, s) in texts.iter().enumerate() {
+        if s.starts_with("tr(") { continue; }   // tr texts carry x-only keys; handled below with its own key type
+        inner_routes(out, s, i % 4 == 0);
+    }
+    // --- every tap tree shape with up to 5 leaves + used state, over real x-only keys
+    {
+        let leaves: Vec<Node> = designated(CtxK::Tap).into_iter().filter(|n| ast::to_ms::<XOnlyPublicKey, Tap>(n).map(|m| m.validate(&Tap::SANE).is_ok()).unwrap_or(false)).collect();
+        let mut next = 0usize;
+        let mut prev: Option<Descriptor<XOnlyPublicKey>> = None;
+        fn build(t: &TapW) -> Option<miniscript::descriptor::TapTree<XOnlyPublicKey>> {
+            use miniscript::descriptor::TapTree;
+            match t { TapW::Leaf(n) => Some(TapTree::leaf(ast::to_ms::<XOnlyPublicKey, Tap>(n).ok()?)), TapW::Node(l, r) => TapTree::combine(build(l)?, build(r)?).ok() }
+        }
+        if !leaves.is_empty() {
+            for n in 1..=5 {
+                for t in catalan_tapw(n, &leaves, &mut next) {
+                    if let Some(tree) = build(&t) {
+                        // constructor routes: TapTree::combine + Tr::new + Descriptor::Tr, and Descriptor::new_tr
+                        let via_tr = Tr::new(ast::xonly_key(208), Some(tree.clone())).ok().map(Descriptor::Tr);
+                        if let Ok(d) = Descriptor::new_tr(ast::xonly_key(208), Some(tree)) {
+                            if let Some(v) = via_tr { if v.to_string() != d.to_string() || v != d { out.line(&format!("J rt desc-ctor-trnew {} fail:Tr::new-differs-from-new_tr", hex(&d.to_string())), "ok"); } }
+                            // R4: the mirror image at the root, BOTH in the used state: equal exactly when the texts are
+                            if let TapW::Node(l, r) = &t {
+                                let m = TapW::Node(r.clone(), l.clone());
+                                if let Some(Ok(dm)) = build(&m).map(|mt| Descriptor::new_tr(ast::xonly_key(208), Some(mt))) {
+                                    let tok = guard(|| {
+                                        let _ = d.script_pubkey(); let _ = dm.script_pubkey();
+                                        if let (Descriptor::Tr(a), Descriptor::Tr(b)) = (&d, &dm) { let _ = a.spend_info(); let _ = b.spend_info(); }
+                                        let same_text = d.to_string() == dm.to_string();
+                                        if (d == dm) != same_text || (dm == d) != same_text { return "fail:mirrored-used-trees-compare-wrong".into(); }
+                                        match Descriptor::<XOnlyPublicKey>::from_str(&dm.to_string()) { Ok(y) => if (y == d) != same_text { "fail:parsed-mirror-equals-original".into() } else { "pass".into() }, Err(_) => "fail:parse-err".into() }
+                                    });
+                                    out.line(&format!("J rt desc-used-mirror {} {}", hex(&d.to_string()), tok), "ok");
+                                }
+                            }
+                            route_desc!(out, km, &mut tr, d, "tr-shape", texts, &mut prev, n);
+                        }
+                    }
+                }
+            }
+        }
+    }
+    // --- compiler output
+    {
+        let n = if thorough { 400 } else { 50 };
+        fn p_comp(rng: &mut Rng, depth: usize, next_key: &mut u32) -> P {
+            if depth == 0 || rng.below(3) == 0 {
+                return match rng.below(6) { 0 => P::Older(*rng.pick(&[1u32, 144, 65535])), 1 => P::After(*rng.pick(&[1u32, 100, 499_999_999])),
+                    2 => P::Hash(*rng.pick(&HK::ALL), rng.below(4) as u32), _ => { *next_key += 1; P::Key((*next_key - 1) % 6) } };
+            }
+            match rng.below(3) {
+                0 => P::And(vec![P::Key({ *next_key += 1; (*next_key - 1) % 6 }), p_comp(rng, depth - 1, next_key)]),
+                1 => P::Or(vec![(1 + rng.below(9), P::Key({ *next_key += 1; (*next_key - 1) % 6 })), (1 + rng.below(9), p_comp(rng, depth - 1, next_key))]),
+                _ => P::Thresh(2, vec![P::Key({ *next_key += 1; (*next_key - 1) % 6 }), p_comp(rng, depth - 1, next_key), P::Key({ *next_key += 1; (*next_key - 1) % 6 })]),
+            }
+        }
+        for i in 0..n {
+            let mut nk = 0u32;
+            let p = p_comp(rng, 1 + i % 3, &mut nk);
+            if nk > 6 { continue; }   // six distinct keys in the table
+            if let Some(c) = to_conc::<PublicKey>(&p) {
+                if let Ok(Ok(ms)) = catch_unwind(AssertUnwindSafe(|| c.compile::<Segwitv0>())) {
+                    let s = ms.to_string();
+                    let tok = guard(|| match Miniscript::<PublicKey, Segwitv0>::from_str(&s) {
+                        Ok(y) => if y == ms && y.to_string() == s && y.encode() == ms.encode() { "pass".into() } else { "fail:differs".into() },
+                        Err(e) => format!("fail:parse-err:{}", err_class(&e.to_string())) });
+                    out.count(&format!("rt ms-compiled {}", tok));
+                    out.line(&format!("J rt ms-compiled-segwitv0 {} {}", hex(&s), tok), "ok");
+                    if let Ok(d) = Descriptor::new_wsh(ms) { let tok = desc_rt_plain(&d); out.line(&format!("J rt desc-compiled-wsh {} {}", hex(&d.to_string()), tok), "ok"); }
+                }
+                if let Ok(Ok(ms)) = catch_unwind(AssertUnwindSafe(|| c.compile::<Legacy>())) {
+                    let s = ms.to_string();
+                    let tok = guard(|| match Miniscript::<PublicKey, Legacy>::from_str(&s) {
+                        Ok(y) => if y == ms && y.to_string() == s { "pass".into() } else { "fail:differs".into() }, Err(e) => format!("fail:parse-err:{}", err_class(&e.to_string())) });
+                    out.line(&format!("J rt ms-compiled-legacy {} {}", hex(&s), tok), "ok");
+                }
+            }
+            // key 5 of the descriptor-key table has three derivation paths, key 4 two: a policy using both compiles to a
+            // descriptor that `from_str` refuses on purpose (multipath keys of different lengths)
+            fn uses(p: &P, k: u32) -> bool { match p { P::Key(x) => *x == k, P::And(v) => v.iter().any(|x| uses(x, k)), P::Or(v) => v.iter().any(|(_, x)| uses(x, k)), P::Thresh(_, v) => v.iter().any(|x| uses(x, k)), _ => false } }
+            if uses(&p, 5) { continue; }
+            if let Some(c) = to_conc::<DescriptorPublicKey>(&p) {
+                let unspendable = DescriptorPublicKey::from_str(&km.xpubs[3]).ok();
+                if let Ok(Ok(d)) = catch_unwind(AssertUnwindSafe(|| c.compile_tr(unspendable))) {
+                    let s = d.to_string();
+                    let tok = super::rt_desc_token(km, &d, &s);
+                    out.count(&format!("rt desc-compiled-tr {}", tok));
+                    out.line(&format!("J rt desc-compiled-tr {} {}", hex(&s), tok), "ok");
+                }
+            }
+        }
+    }
+}
+
+/* ---- R3: the raw channel: every short string, and lengths one around each constant the key / descriptor parsers test */
+pub fn run_raw_strings(out: &mut Out, km: &KeyMaterial) {
+    let alpha = ['(', ')', '{', '}', ',', '#', ':', '@', '/', '*', '\'', 'h', '<', '>', ';', '[', ']', '0', '1', 'a', 'x', 'A', ' ', 'é'];
+    let mut inputs: Vec<String> = vec![String::new()];
+    for a in alpha { inputs.push(a.to_string()); for b in alpha { inputs.push(format!("{}{}", a, b)); } }
+    for a in ['(', ',', '#', '@', '[', '<', '0', 'a'] { for b in ['(', ')', ',', '/', '*', '0', 'a'] { for c in [')', ',', '#', '>', ']', '0', 'a'] { inputs.push(format!("{}{}{}", a, b, c)); } } }
+    let hexkey = ast::full_key(0).to_string(); let unc = ast::full_key(100).to_string(); let xo = ast::xonly_key(200).to_string();
+    let x = &km.xpubs[0]; let p = &km.xprvs[0]; let w = &km.wifs[0];
+    // one character short / long around 64, 66, 130 hex digits, 8-digit fingerprints, 111-character extended keys, 51/52-character WIF, 8-character checksums
+    for k in [&hexkey, &unc, &xo] { inputs.push(k[..k.len() - 1].to_string()); inputs.push(format!("{}0", k)); inputs.push(format!("{}00", k)); inputs.push(k[1..].to_string()); }
+    for fp in ["d34db33", "d34db33f", "d34db33f0", "", "d34db33g"] { inputs.push(format!("[{}]{}", fp, hexkey)); inputs.push(format!("[{}/0']{}", fp, x)); }
+    for k in [x, p] { inputs.push(k[..k.len() - 1].to_string()); inputs.push(format!("{}1", k)); inputs.push(format!("{}/", k)); inputs.push(k[..4].to_string()); inputs.push(k[..5].to_string()); }
+    inputs.push(w[..w.len() - 1].to_string()); inputs.push(format!("{}1", w));
+    for cs in ["", "#", "#1", "#1234567", "#12345678", "#123456789"] { inputs.push(format!("wpkh({}){}", hexkey, cs)); inputs.push(format!("pk(A){}", cs)); }
+    for m in ["pk()", "pk(,)", "wpkh()", "sh()", "wsh()", "tr()", "tr(,)", "tr({})", "multi()", "thresh()", "sh(wsh())", "sh(wpkh())", "and_v()", "a:", ":a", "a:b:c", "@0", "@0/**", "0@", "pk(@)", "older()", "after(0)"] { inputs.push(m.to_string()); }
+    for (i, m) in inputs.iter().enumerate() { nopanic_all(out, m, km, i % 16 == 0, i); }
+    out.note("c10b_raw_strings", inputs.len().to_string());
+}
+
+/* ---- `{:#}` of miniscripts over REAL keys: keys and lock times print as under `{}`; hashes are the designated probes */
+pub fn run_alt_probes(out: &mut Out) {
+    use Node::*;
+    let bx = |n: Node| Box::new(n);
+    let pk = |i: u32| Check(bx(PkK(i)));
+    let mut probes: Vec<(&str, Node)> = vec![
+        ("locks", AndV(bx(Verify(bx(pk(0)))), bx(AndV(bx(Verify(bx(After(100)))), bx(AndV(bx(Verify(bx(After(500000001)))), bx(Older(4194305)))))))),
+        ("keys", OrD(bx(pk(1)), bx(AndV(bx(Verify(bx(Check(bx(PkH(2)))))), bx(Multi(1, vec![3, 4]))))))];
+    for (name, kind) in [("sha256", HK::Sha256), ("hash256", HK::Hash256), ("ripemd160", HK::Ripemd160), ("hash160", HK::Hash160)] {
+        probes.push((name, AndV(bx(Verify(bx(pk(0)))), bx(Hash(kind, 1)))));
+    }
+    probes.push(("rawpkh", Check(bx(RawPkH(0)))));
+    for (name, n) in probes {
+        if let Ok(ms) = ast::to_ms::<PublicKey, Segwitv0>(&n) {
+            let d = ms.to_string(); let a = guard(|| format!("{:#}", ms)); let ta = guard(|| format!("{:#}", ms.as_inner()));
+            out.line(&format!("J alttext ms-realkeys-{} {} {}", name, hex(&d), hex(&a)), "ok");
+            out.line(&format!("J alttext terminal-realkeys-{} {} {}", name, hex(&d), hex(&ta)), "ok");
+        }
+    }
 }
